@@ -671,7 +671,7 @@ static size_t copy_chars (UCHAR* from, UCHAR* to, size_t count, interactive_t* i
                     if (ip->sb_buf[1] != TELQUAL_IS)
                       break;
                     copy_and_push_string ((char*)ip->sb_buf + 2);
-                    apply (APPLY_TERMINAL_TYPE, ip->ob, 1, ORIGIN_DRIVER);
+                    safe_apply (APPLY_TERMINAL_TYPE, ip->ob, 1, ORIGIN_DRIVER);
                     break;
                   }
                 case TELOPT_NAWS:
@@ -682,7 +682,7 @@ static size_t copy_chars (UCHAR* from, UCHAR* to, size_t count, interactive_t* i
                     h = ((UCHAR) ip->sb_buf[3]) * 256 + ((UCHAR) ip->sb_buf[4]);
                     push_number (w);
                     push_number (h);
-                    apply (APPLY_WINDOW_SIZE, ip->ob, 2, ORIGIN_DRIVER);
+                    safe_apply (APPLY_WINDOW_SIZE, ip->ob, 2, ORIGIN_DRIVER);
                     break;
                   }
                 case TELOPT_LINEMODE:
@@ -776,7 +776,7 @@ static size_t copy_chars (UCHAR* from, UCHAR* to, size_t count, interactive_t* i
                      * or something. --- Annihilator@ES2 [2002-05-07]
                      */
                     copy_and_push_string ((char*)ip->sb_buf);
-                    apply (APPLY_TELNET_SUBOPTION, ip->ob, 1, ORIGIN_DRIVER);
+                    safe_apply (APPLY_TELNET_SUBOPTION, ip->ob, 1, ORIGIN_DRIVER);
                     break;
                   }
                 }
